@@ -9,6 +9,7 @@ The stub appends one record per invocation to $C19_LOG
 prints the content of the file $C19_OUT (if set) to stdout and exits with $C19_RC.
 Everything lives under /verif/.build/c19 (never /tmp); no network, no real ipmitool.
 """
+import itertools
 import os
 import shutil
 import subprocess
@@ -70,6 +71,14 @@ sys.exit(int(os.environ.get('C19_RC', '0')))
 '''
 
 _lock = threading.Lock()
+_serial = itertools.count()     # every shell run gets its own log file: a background job started by a
+#                                 hostile command line ("... & ipmitool x") may write AFTER the run ended and
+#                                 must not land in the log of the next case
+LOGS = DIR / 'logs'
+
+
+def fresh_log():
+    return LOGS / ('log%d' % next(_serial))
 
 
 def ensure_stub():
@@ -80,6 +89,9 @@ def ensure_stub():
         if CWD.exists():
             shutil.rmtree(CWD, ignore_errors=True)
         CWD.mkdir(parents=True, exist_ok=True)
+        if LOGS.exists():
+            shutil.rmtree(LOGS, ignore_errors=True)
+        LOGS.mkdir(parents=True, exist_ok=True)
         exe = BIN / 'ipmitool'
         src = DIR / 'stub.c'
         kind = DIR / 'stub.kind'
@@ -138,9 +150,7 @@ def observed(inv):
 
 def run_sh(cmd, slot=0, out=None, rc=0):
     """Start `cmd` (bytes) like the library does; returns (invocations, returncode, stdout)."""
-    log = DIR / ('log%d' % slot)
-    if log.exists():
-        log.unlink()
+    log = fresh_log()
     p = subprocess.Popen(cmd, shell=True, stdout=subprocess.PIPE, stderr=subprocess.DEVNULL,
                          stdin=subprocess.DEVNULL, env=stub_env(log, out, rc), cwd=str(CWD))
     try:
@@ -148,7 +158,12 @@ def run_sh(cmd, slot=0, out=None, rc=0):
     except subprocess.TimeoutExpired:
         p.kill()
         so = p.communicate()[0]
-    return read_log(log), p.returncode, so
+    inv = read_log(log)
+    try:
+        log.unlink()
+    except FileNotFoundError:
+        pass
+    return inv, p.returncode, so
 
 
 class LibraryEnv:
@@ -158,11 +173,9 @@ class LibraryEnv:
 
     def __init__(self, out=None, rc=0):
         self.out, self.rc = out, rc
-        self.log = DIR / 'loglib'
+        self.log = fresh_log()
 
     def __enter__(self):
-        if self.log.exists():
-            self.log.unlink()
         self.saved_env = dict(os.environ)
         self.saved_cwd = os.getcwd()
         os.environ.clear()
@@ -182,4 +195,9 @@ class LibraryEnv:
         os.environ.update(self.saved_env)
 
     def invocations(self):
-        return read_log(self.log)
+        inv = read_log(self.log)
+        try:
+            self.log.unlink()
+        except FileNotFoundError:
+            pass
+        return inv
